@@ -94,10 +94,11 @@ class Program:
     # ------------------------------------------------------------ value generation
     STR_ALPHA = ["a", "Z", " ", "~", "y", "ÿ", "€", "Ÿ", "Ā", "\U0001F600", "\x00", "!", "é"]
 
-    def gen_string(self, rng, n=None, safe=False):
+    def gen_string(self, rng, n=None, safe=False, ff_ok=False):
         if n is None:
             n = rng.randrange(0, 6)
-        alpha = ["a", "Z", " ", "y", "!", "é", "b"] if safe else self.STR_ALPHA
+        # safe = inside C01's value domain: y-diaeresis only where the string is neither sanitised nor padded
+        alpha = (["a", "Z", " ", "y", "!", "é", "b"] + (["ÿ", "ÿ"] if ff_ok else [])) if safe else self.STR_ALPHA
         return "".join(rng.choice(alpha) for _ in range(n))
 
     def gen_int(self, rng, limit):
@@ -108,7 +109,7 @@ class Program:
             return rng.randrange(0, min(limit, 300))
         return rng.randrange(0, limit)
 
-    def gen_scalar(self, tref, rng, ins=None, safe=False, depth=0, lenlimit=None):
+    def gen_scalar(self, tref, rng, ins=None, safe=False, depth=0, lenlimit=None, sanit=True):
         if tref.kind == "int":
             return self.gen_int(rng, tref.limit)
         if tref.kind == "bool":
@@ -120,18 +121,19 @@ class Program:
             return ec(self.gen_int(rng, tref.limit))
         if tref.kind in ("string", "encoded_string"):
             enc_safe = safe
+            ff_ok = not sanit and not (ins is not None and ins.tag == "field" and ins.padded)
             if ins is not None and ins.tag == "field" and ins.length is not None:
                 if ins.length.isdigit():
                     L = int(ins.length)
                     n = rng.randrange(0, L + 1) if ins.padded else L
                 else:
                     n = rng.randrange(0, min(6, lenlimit + 1) if lenlimit is not None else 6)
-                return self.gen_string(rng, n, enc_safe)
-            return self.gen_string(rng, None, enc_safe)
+                return self.gen_string(rng, n, enc_safe, ff_ok)
+            return self.gen_string(rng, None, enc_safe, ff_ok)
         if tref.kind == "blob":
             return bytes(rng.choice([0, 1, 0xFE, 0xFF, 65]) for _ in range(rng.randrange(0, 5)))
         if tref.kind == "struct":
-            return self.gen_tree(tref.struct, rng, safe, depth + 1)
+            return self.gen_tree(tref.struct, rng, safe, depth + 1, mode=sanit)
         raise AssertionError(tref.kind)
 
     def build(self, t):
@@ -145,9 +147,20 @@ class Program:
     def gen_object(self, decl, rng, safe=False, depth=0, want_all_optional=None):
         return self.build(self.gen_tree(decl, rng, safe, depth, want_all_optional))
 
-    def gen_tree(self, decl, rng, safe=False, depth=0, want_all_optional=None):
+    def _modes(self, body, mode, out):
+        for ins in body:
+            if ins.tag == "chunked":
+                self._modes(ins.body, True, out)
+            else:
+                out[id(ins)] = mode
+        return out
+
+    def gen_tree(self, decl, rng, safe=False, depth=0, want_all_optional=None, mode=None):
         """a valid value of the generated class for `decl`, as a tree of constructor arguments"""
         kwargs = {}
+        if mode is None:
+            mode = bool(self.ctx.get(decl.name, False))
+        modes = self._modes(decl.body, mode, {})
         flat = list(C.flat(decl.body))
         lf = C.length_fields(decl.body)
         types_ = {}
@@ -171,7 +184,7 @@ class Program:
                 if ins.length is not None and not ins.length.isdigit():
                     lfi = lf[ins.length]
                     lenlimit = X.resolve_type(self.spec, lfi.type).limit - 1 + lfi.offset
-                v = self.gen_scalar(tref, rng, ins, safe, depth, lenlimit)
+                v = self.gen_scalar(tref, rng, ins, safe, depth, lenlimit, sanit=modes.get(id(ins), True))
                 if ins.length is not None and not ins.length.isdigit() and len(v) < lf[ins.length].offset:
                     v = v + "a" * (lf[ins.length].offset - len(v))
                 kwargs[ins.name] = v
@@ -187,7 +200,7 @@ class Program:
                     n = rng.randrange(0, 3 if depth > 0 else 4)
                     if ins.length is not None:
                         n = max(n, lf[ins.length].offset)
-                kwargs[ins.name] = [self.gen_scalar(tref, rng, None, safe, depth) for _ in range(n)]
+                kwargs[ins.name] = [self.gen_scalar(tref, rng, None, safe, depth, sanit=modes.get(id(ins), True)) for _ in range(n)]
             elif ins.tag == "switch":
                 tref = types_[ins.field]
                 cases = ins.cases
@@ -202,7 +215,8 @@ class Program:
                 sel = C.select_case(self.spec, ins, kwargs[ins.field], types_)
                 if sel is not None and sel.body:
                     kwargs[ins.field + "_data"] = self.gen_tree(
-                        self.decls[C.case_class_name(decl.name, ins.field, sel)], rng, safe, depth + 1)
+                        self.decls[C.case_class_name(decl.name, ins.field, sel)], rng, safe, depth + 1,
+                        mode=modes.get(id(ins), True))
                 else:
                     kwargs[ins.field + "_data"] = None
             elif ins.tag == "break":
